@@ -1,6 +1,7 @@
 import LlirModel.Core3
 import LlirProofs.Core2Mod
 import LlirProofs.EncTokens
+import LlirProofs.MdNameLemmas
 /-! M-Core-3: the line readers invert the printers (helper lemmas). -/
 namespace Llir.Core3
 open Llir Llir.Types Llir.Core2 Llir.Enc
@@ -1338,7 +1339,7 @@ theorem call_void_ok (useHex : Int → Bool) (i : Inst) (r : Row) (hr : rows[i.r
 
 theorem readBody_print (useHex : Int → Bool) (i : Inst) (r : Row) (hr : rows[i.row]? = some r) (hm : Matches r.slots i.args)
     (ha : ∀ a ∈ i.args, argOK a) (hres : r.hasRes = i.res.isSome) (hc : callTyOK i = true) :
-    readBody i.res (r.pre ++ printSlots useHex r.cur0 r.slots i.args) = some { i with ext := .none } := by
+    readBody i.res (r.pre ++ printSlots useHex r.cur0 r.slots i.args) = some { i with ext := .none, md := [] } := by
   unfold readBody
   have hf := findRow_spec rows 0 i.row r (printSlots useHex r.cur0 r.slots i.args) rows_diverge hr (call_void_ok useHex i r hr hm hc)
   simp only [Nat.zero_add] at hf
@@ -1348,10 +1349,10 @@ theorem readBody_print (useHex : Int → Bool) (i : Inst) (r : Row) (hr : rows[i
     simpa using this
   have hs := read_print_slots useHex r.slots i.args hm r.cur0 hfmt ha
   simp only [hs]
-  obtain ⟨ires, irow, iargs, iext⟩ := i
+  obtain ⟨ires, irow, iargs, iext, imd⟩ := i
   cases ires <;> simp_all
 
-theorem readInst_print (useHex : Int → Bool) (i : Inst) (hi : instOK i) : readInst (instString useHex i) = some { i with ext := .none } := by
+theorem readInst_print (useHex : Int → Bool) (i : Inst) (hi : instOK i) : readInst (instString useHex i) = some { i with ext := .none, md := [] } := by
   obtain ⟨r, hr, hm, ha, hres, hid, hcall, _⟩ := hi
   unfold instString
   rw [hr]
@@ -1387,6 +1388,92 @@ theorem readInst_print (useHex : Int → Bool) (i : Inst) (hi : instOK i) : read
     rw [hd]
     simp only [if_true, hri, TyParse.stripPrefix_append, hb]
 
+
+/-! ### metadata attachments -/
+
+/-- the attachments are well-formed and the instruction text itself contains no `, !` outside a quoted name (decidable; evaluated on the instance) -/
+def mdOK (useHex : Int → Bool) (i : Inst) : Prop :=
+  (∀ a ∈ i.md, a.1 ≠ [] ∧ a.2 < 2 ^ 63) ∧ scanMd false (instString useHex i) = some false
+
+theorem startsMd_append (b R : Bytes) (hb : b ≠ []) (h : startsMd b = false) (hR : R = [] ∨ R.head? = some 44) : startsMd (b ++ R) = false := by
+  rcases hR with hR | hR
+  · subst hR; simpa using h
+  · cases R with
+    | nil => simp at hR
+    | cons x R' =>
+      simp at hR; subst hR
+      match b, hb, h with
+      | [c], _, _ => simp [startsMd]
+      | [c, d], _, _ => simp [startsMd]
+      | c :: d :: e :: r, _, h => simpa [startsMd] using h
+
+theorem splitMd_scan : ∀ (body : Bytes) (inq q : Bool) (R : Bytes), scanMd inq body = some q → (R = [] ∨ R.head? = some 44) →
+    splitMd inq (body ++ R) = (body ++ (splitMd q R).1, (splitMd q R).2)
+  | [], inq, q, R, h, _ => by
+    simp only [scanMd, Option.some.injEq] at h; subst h; simp
+  | c :: r, inq, q, R, h, hR => by
+    unfold scanMd at h
+    by_cases hc : (!inq && startsMd (c :: r)) = true
+    · simp [hc] at h
+    · simp only [hc, Bool.false_eq_true, if_false] at h
+      have hc' : (!inq && startsMd (c :: (r ++ R))) = false := by
+        cases inq with
+        | true => rfl
+        | false =>
+          have : startsMd (c :: r) = false := by simpa using hc
+          have := startsMd_append (c :: r) R (by simp) this hR
+          simpa using this
+      have ih := splitMd_scan r (if c == 34 then !inq else inq) q R h hR
+      simp only [List.cons_append, splitMd, hc', Bool.false_eq_true, if_false, ih]
+
+theorem mdString_head (md : List (Bytes × Nat)) : mdString md = [] ∨ (mdString md).head? = some 44 := by
+  cases md with
+  | nil => left; rfl
+  | cons a r => obtain ⟨n, k⟩ := a; right; simp [mdString, sComma]
+
+theorem splitMd_mdString (md : List (Bytes × Nat)) (hm : ∀ a ∈ md, a.1 ≠ []) : splitMd false (mdString md) = ([], mdString md) := by
+  cases md with
+  | nil => rfl
+  | cons a r =>
+    obtain ⟨n, k⟩ := a
+    obtain ⟨body, hb, _⟩ := mdName_shape n (hm (n, k) (by simp))
+    simp [mdString, sComma, hb, splitMd, startsMd]
+
+theorem readMds_print : ∀ (md : List (Bytes × Nat)) (f : Nat), (∀ a ∈ md, a.1 ≠ [] ∧ a.2 < 2 ^ 63) → md.length + 1 ≤ f →
+    readMds f (mdString md) = some md
+  | [], f, _, hf => by
+    obtain ⟨f', rfl⟩ : ∃ f', f = f' + 1 := ⟨f - 1, by simp at hf; omega⟩
+    simp [mdString, readMds]
+  | (n, k) :: r, f, hm, hf => by
+    obtain ⟨f', rfl⟩ : ∃ f', f = f' + 1 := ⟨f - 1, by simp at hf; omega⟩
+    have hnk := hm (n, k) (by simp)
+    have ih := readMds_print r f' (fun a ha => hm a (by simp [ha])) (by simp at hf ⊢; omega)
+    obtain ⟨body, hb, hbne, hbd, hbc, hbu⟩ := mdName_shape n hnk.1
+    have hs : mdString ((n, k) :: r) = 44 :: 32 :: 33 :: (body ++ 32 :: 33 :: (natDec k ++ mdString r)) := by
+      simp [mdString, sComma, hb, mdID]
+    obtain ⟨h1, h2⟩ := TyParse.takeWhile_append_stop isMdNameChar body (32 :: 33 :: (natDec k ++ mdString r)) hbc
+      (by simp [isMdNameChar, Enc.isLetter, isAlpha, isUpper, isLower, isDigit])
+    have hstop : ∀ c ∈ (mdString r).head?, isDigit c = false := by
+      rcases mdString_head r with h | h
+      · rw [h]; simp
+      · intro c hc; rw [h] at hc; simp at hc; subst hc; decide
+    obtain ⟨h3, h4⟩ := TyParse.takeWhile_append_stop isDigit (natDec k) (mdString r) (Types.natDec_digits k) hstop
+    have hemp : body.isEmpty = false := by cases body with | nil => exact absurd rfl hbne | cons a as => rfl
+    rw [hs]
+    simp only [readMds, h1, h2, hemp, hbd, Bool.or_self, Bool.false_eq_true, if_false, h3, h4, parseUint63_natDec k hnk.2, ih, Option.map_some, hbu]
+
+theorem mdString_len : ∀ (md : List (Bytes × Nat)), md.length ≤ (mdString md).length
+  | [] => by simp [mdString]
+  | (n, k) :: r => by have := mdString_len r; simp [mdString, sComma]; omega
+
+theorem readInstMd_print (useHex : Int → Bool) (i : Inst) (hi : instOK i) (hm : mdOK useHex i) :
+    readInstMd (instString useHex i ++ mdString i.md) = some { i with ext := .none } := by
+  obtain ⟨hmd, hscan⟩ := hm
+  have hsp := splitMd_scan (instString useHex i) false false (mdString i.md) hscan (mdString_head i.md)
+  rw [splitMd_mdString i.md (fun a ha => (hmd a ha).1)] at hsp
+  simp only [List.append_nil] at hsp
+  have hr := readMds_print i.md ((mdString i.md).length + 1) hmd (by have := mdString_len i.md; omega)
+  simp only [readInstMd, hsp, readInst_print useHex i hi, hr]
 
 /-! ### blocks -/
 
@@ -1575,7 +1662,7 @@ theorem readExt_print (useHex : Int → Bool) (row : Nat) (x : Ext) (hx : extOK 
         simp only [clauseLine_ne_cleanup, Bool.false_eq_true, if_false, hrc]
 
 /-- the first line of an instruction never continues another one -/
-theorem instLine_notCont (useHex : Int → Bool) (i : Inst) (hi : instOK i) : notCont (9 :: instString useHex i) = true := by
+theorem instLine_notCont (useHex : Int → Bool) (i : Inst) (hi : instOK i) (x : Bytes) : notCont (9 :: (instString useHex i ++ x)) = true := by
   obtain ⟨r, hr, _, _, _, hid, _⟩ := hi
   have hh := List.all_eq_true.mp rows_head r (List.mem_of_getElem? hr)
   unfold instString
@@ -1594,34 +1681,34 @@ theorem instLine_notCont (useHex : Int → Bool) (i : Inst) (hi : instOK i) : no
       simp [this]
 
 /-- the lines of an instruction are read back as that instruction -/
-theorem inst_lines (useHex : Int → Bool) (i : Inst) (hi : instOK i) (tl : List Bytes) (htl : ∀ l ∈ tl.head?, notCont l = true) :
-    readInst (instString useHex i) = some { i with ext := .none } ∧ readExt i.row (extLines useHex i.ext ++ tl) = some (i.ext, tl) := by
-  refine ⟨readInst_print useHex i hi, ?_⟩
+theorem inst_lines (useHex : Int → Bool) (i : Inst) (hi : instOK i) (hmd : mdOK useHex i) (tl : List Bytes) (htl : ∀ l ∈ tl.head?, notCont l = true) :
+    readInstMd (instString useHex i ++ mdString i.md) = some { i with ext := .none } ∧ readExt i.row (extLines useHex i.ext ++ tl) = some (i.ext, tl) := by
+  refine ⟨readInstMd_print useHex i hi hmd, ?_⟩
   obtain ⟨_, _, _, _, _, _, _, hx⟩ := hi
   exact readExt_print useHex i.row i.ext hx tl htl
 
 /-- the instruction lines of a block are read up to and including the terminator -/
-theorem readBody_lines (useHex : Int → Bool) (t : Inst) (ht : instOK t) (htt : isTerm t = true) (tl : List Bytes)
+theorem readBody_lines (useHex : Int → Bool) (t : Inst) (ht : instOK t) (htm : mdOK useHex t) (htt : isTerm t = true) (tl : List Bytes)
     (htl : ∀ l ∈ tl.head?, notCont l = true) :
-    ∀ (is : List Inst), (∀ i ∈ is, instOK i ∧ isTerm i = false) → ∀ f, is.length + 1 ≤ f →
+    ∀ (is : List Inst), (∀ i ∈ is, instOK i ∧ isTerm i = false) → (∀ i ∈ is, mdOK useHex i) → ∀ f, is.length + 1 ≤ f →
       readBody' f (is.flatMap (instLines useHex) ++ (instLines useHex t ++ tl)) = some (is, t, tl)
-  | [], _, f, hf => by
+  | [], _, _, f, hf => by
     obtain ⟨f', rfl⟩ : ∃ f', f = f' + 1 := ⟨f - 1, by simp at hf; omega⟩
-    obtain ⟨h1, h2⟩ := inst_lines useHex t ht tl htl
+    obtain ⟨h1, h2⟩ := inst_lines useHex t ht htm tl htl
     have et : ({ ({ t with ext := .none } : Inst) with ext := t.ext } : Inst) = t := by cases t; rfl
     simp only [List.flatMap_nil, List.nil_append, instLines, List.cons_append, readBody', isInstLine, List.head?_cons, beq_self_eq_true,
       Bool.not_true, Bool.false_eq_true, if_false, List.tail_cons, h1, h2, et, htt, if_true]
-  | i :: is, hi, f, hf => by
+  | i :: is, hi, him, f, hf => by
     obtain ⟨f', rfl⟩ : ∃ f', f = f' + 1 := ⟨f - 1, by simp at hf; omega⟩
-    have ih := readBody_lines useHex t ht htt tl htl is (fun x hx => hi x (by simp [hx])) f' (by simp at hf ⊢; omega)
+    have ih := readBody_lines useHex t ht htm htt tl htl is (fun x hx => hi x (by simp [hx])) (fun x hx => him x (by simp [hx])) f' (by simp at hf ⊢; omega)
     have h1 := hi i (by simp)
     -- the line after the lines of `i` is the first line of an instruction
     have hnext : ∀ l ∈ (is.flatMap (instLines useHex) ++ (instLines useHex t ++ tl)).head?, notCont l = true := by
       intro l hl
       cases is with
-      | nil => simp [instLines] at hl; subst hl; exact instLine_notCont useHex t ht
-      | cons j js => simp [instLines] at hl; subst hl; exact instLine_notCont useHex j (hi j (by simp)).1
-    obtain ⟨h2, h3⟩ := inst_lines useHex i h1.1 _ hnext
+      | nil => simp [instLines] at hl; subst hl; exact instLine_notCont useHex t ht _
+      | cons j js => simp [instLines] at hl; subst hl; exact instLine_notCont useHex j (hi j (by simp)).1 _
+    obtain ⟨h2, h3⟩ := inst_lines useHex i h1.1 (him i (by simp)) _ hnext
     have et : ({ ({ i with ext := .none } : Inst) with ext := i.ext } : Inst) = i := by cases i; rfl
     simp only [List.flatMap_cons, instLines, List.cons_append, List.append_assoc, readBody', isInstLine, List.head?_cons, beq_self_eq_true,
       Bool.not_true, Bool.false_eq_true, if_false, List.tail_cons, h2] at ih h3 ⊢
@@ -1629,11 +1716,14 @@ theorem readBody_lines (useHex : Int → Bool) (t : Inst) (ht : instOK t) (htt :
 
 theorem instLines_len (useHex : Int → Bool) (t : Inst) : 1 ≤ (instLines useHex t).length := by simp [instLines]
 
-theorem block_step (useHex : Int → Bool) (b : Block) (hb : blockOK b) (tl : List Bytes) (bs : List Block) (f : Nat)
+/-- the attachments of every instruction of the block are well-formed -/
+def blockMdOK (useHex : Int → Bool) (b : Block) : Prop := (∀ i ∈ b.insts, mdOK useHex i) ∧ mdOK useHex b.term
+
+theorem block_step (useHex : Int → Bool) (b : Block) (hb : blockOK b) (hbm : blockMdOK useHex b) (tl : List Bytes) (bs : List Block) (f : Nat)
     (htl : ∀ l ∈ tl.head?, notCont l = true) (ht : readBlocks f tl = some bs) :
     readBlocks (f + 1) (blockLines useHex b ++ tl) = some (b :: bs) := by
   obtain ⟨hl, hi, htm, htt⟩ := hb
-  have hbody := readBody_lines useHex b.term htm htt tl htl b.insts hi
+  have hbody := readBody_lines useHex b.term htm hbm.2 htt tl htl b.insts hi hbm.1
     ((b.insts.flatMap (instLines useHex) ++ (instLines useHex b.term ++ tl)).length + 1) (by
       have : b.insts.length ≤ (b.insts.flatMap (instLines useHex)).length := by
         induction b.insts with
@@ -1649,21 +1739,21 @@ theorem block_step (useHex : Int → Bool) (b : Block) (hb : blockOK b) (tl : Li
 theorem sep_step (tl : List Bytes) (f : Nat) : readBlocks (f + 1) ([] :: tl) = readBlocks f tl := by
   simp [readBlocks]
 
-theorem readBlocks_print (useHex : Int → Bool) : ∀ (bs : List Block), bs ≠ [] → (∀ b ∈ bs, blockOK b) →
+theorem readBlocks_print (useHex : Int → Bool) : ∀ (bs : List Block), bs ≠ [] → (∀ b ∈ bs, blockOK b) → (∀ b ∈ bs, blockMdOK useHex b) →
     ∀ f, (blocksLines useHex bs ++ [[125]]).length ≤ f → readBlocks f (blocksLines useHex bs ++ [[125]]) = some bs
-  | [], h, _, _, _ => absurd rfl h
-  | [b], _, hb, f, hf => by
+  | [], h, _, _, _, _ => absurd rfl h
+  | [b], _, hb, hbm, f, hf => by
     obtain ⟨f', rfl⟩ : ∃ f', f = f' + 1 + 1 := ⟨f - 2, by simp [blocksLines, blockLines] at hf; omega⟩
     simp only [blocksLines]
-    exact block_step useHex b (hb b (by simp)) [[125]] [] (f' + 1) (by simp [notCont, TyParse.stripPrefix]) (by simp [readBlocks])
-  | b :: c :: bs, _, hb, f, hf => by
+    exact block_step useHex b (hb b (by simp)) (hbm b (by simp)) [[125]] [] (f' + 1) (by simp [notCont, TyParse.stripPrefix]) (by simp [readBlocks])
+  | b :: c :: bs, _, hb, hbm, f, hf => by
     simp only [blocksLines, List.append_assoc, List.length_append, List.length_cons, List.length_nil] at hf
     obtain ⟨f', rfl⟩ : ∃ f', f = f' + 1 + 1 := ⟨f - 2, by simp [blockLines] at hf; omega⟩
-    have ih := readBlocks_print useHex (c :: bs) (by simp) (fun x hx => hb x (by simp [hx])) f' (by
+    have ih := readBlocks_print useHex (c :: bs) (by simp) (fun x hx => hb x (by simp [hx])) (fun x hx => hbm x (by simp [hx])) f' (by
       simp only [List.length_append, List.length_cons, List.length_nil]
       simp [blockLines] at hf; omega)
     simp only [blocksLines, List.append_assoc]
-    apply block_step useHex b (hb b (by simp)) _ (c :: bs) (f' + 1)
+    apply block_step useHex b (hb b (by simp)) (hbm b (by simp)) _ (c :: bs) (f' + 1)
     · simp [notCont, TyParse.stripPrefix]
     · simp only [List.singleton_append, sep_step]; exact ih
 
